@@ -3,6 +3,7 @@ package main
 import (
 	"fmt"
 	"go/token"
+	"strings"
 
 	"golang.org/x/tools/go/ssa"
 )
@@ -213,12 +214,36 @@ func ruleP6(p *Prog) *RuleResult {
 				for ans := range answers {
 					// drained by a goroutine that is not one of the consumers?
 					drainedElsewhere := false
+					late := false
 					for _, w := range workers {
 						if w.use.recv[ans] && !w.use.recv[work] {
-							drainedElsewhere = true
+							// ... and it must already be running while the coordinator feeds: its go statement
+							// comes before the feeding send on every path
+							gb := w.g.Block()
+							started := gb.Dominates(b) && gb != b
+							if gb == b {
+								for _, x := range b.Instrs {
+									if x == ssa.Instruction(w.g) {
+										started = true
+										break
+									}
+									if x == ssa.Instruction(snd) {
+										break
+									}
+								}
+							}
+							if started {
+								drainedElsewhere = true
+							} else {
+								late = true
+							}
 						}
 					}
 					if drainedElsewhere {
+						continue
+					}
+					if late {
+						bad = "LATE:" + p.ipos(ans.(ssa.Instruction))
 						continue
 					}
 					// drained by the coordinator inside the same loop (interleaved)?
@@ -236,7 +261,9 @@ func ruleP6(p *Prog) *RuleResult {
 						bad = p.ipos(ans.(ssa.Instruction))
 					}
 				}
-				if bad != "" {
+				if strings.HasPrefix(bad, "LATE:") {
+					res.bad(c, p.ipos(snd), fmt.Sprintf("the goroutine that takes the workers' answers from the channel made at %s is started only after the loop in which the coordinator feeds them: until then nobody drains that channel, and once its buffer is full workers and coordinator wait for each other", strings.TrimPrefix(bad, "LATE:")))
+				} else if bad != "" {
 					res.bad(c, p.ipos(snd), fmt.Sprintf("the coordinator sends work in a loop of its own, and the workers that take it answer on the channel made at %s, which only the coordinator reads — after this loop: once more items are in flight than the buffers hold, coordinator and workers wait for each other", bad))
 				} else {
 					res.ok(c, p.ipos(snd), "the workers' results are taken by another goroutine (or inside the same loop)")
